@@ -1072,3 +1072,24 @@ Section Std2.
     rewrite Ha, Hb. reflexivity.
   Qed.
 End Std2.
+
+(* ------------------------------------------------------------------ emitted level list = documented level list *)
+Lemma levels_match_sound ls : forall ex, levels_match ls ex = true ->
+  length ls = length ex /\
+  forall i l n c, nth_error ls i = Some l -> nth_error ex i = Some (n, c) ->
+    l_null l = n /\
+    match l_cond l, c with
+    | Some a, Some b => forall P fenv env, eval P fenv env a = eval P fenv env b
+    | None, None => True
+    | _, _ => False
+    end.
+Proof.
+  induction ls as [|l t IH]; intros [|[n c] t'] H; cbn in H; try discriminate.
+  - split; [reflexivity|]. intros [|i]; discriminate.
+  - apply andb_true_iff in H as [H H3]. apply andb_true_iff in H as [H1 H2].
+    destruct (IH t' H3) as [Hl Hi]. split; [cbn; now f_equal|].
+    intros [|i] l' n' c' Hn He; cbn in Hn, He.
+    + injection Hn as <-. injection He as <- <-. split; [now apply Bool.eqb_prop|].
+      destruct (l_cond l), c; try discriminate; auto. intros P fenv env. now apply same_expr_sound.
+    + eapply Hi; eauto.
+Qed.
